@@ -66,5 +66,6 @@ def run(prop, tier, seed):
     return pipeline.finish(prop, tier, seed, t0, [pst, rst, rst2, rst3],
                            rule="non-trivial: at least one task step applied, stored or dropped a result",
                            assumptions=["<=3-4 assignments (coroutine / async generator with two yields / plain value / coroutine whose result is rejected; each behaviour replayed with a fresh function object per assignment and with one shared function object), every interleaving of assignment, completion and single loop steps up to the step bound",
+                                        "unwatched pipeline (RxLazy): two reactive inputs, <=2-3 assignments each, <=3-4 evaluations; three expression shapes (extra pipe argument over rx inputs / over Parameter inputs, both inputs in the source operand)",
                                         "replay on a single-step event loop owned by the driver (harness/steploop.py; CPython 3.12 task internals, self-tested)",
                                         "LatestWins / NoLateApply are claimed for behaviours the specification does not mark tainted (task registered only at its own first step: known finding)"])
